@@ -697,6 +697,52 @@ def _factory_start(classes):
     return start
 
 
+def _file_init_steps(repo):
+    """what `File.__init__` does to the switch and to the file's own time stamps, statement by statement of its
+    body: ("switchFromParam",) | ("forceIfMissing", attr) = `if "<attr>_at" not in self._h5file.attrs:
+    self.force_<attr>_at()` | ("force", attr) = the call unconditionally | ("unknown",) = any other statement that
+    names the machinery"""
+    tree = ast.parse(open(os.path.join(repo, "nixio", "file.py"), encoding="utf-8").read())
+    init = None
+    for c in tree.body:
+        if isinstance(c, ast.ClassDef) and c.name == "File":
+            for m in c.body:
+                if isinstance(m, ast.FunctionDef) and m.name == "__init__":
+                    init = m
+    if init is None:
+        raise ExtractError("File.__init__ not found")
+    steps = []
+
+    def force_call(st):
+        if (isinstance(st, ast.Expr) and isinstance(st.value, ast.Call) and isinstance(st.value.func, ast.Attribute)
+                and st.value.func.attr in FORCE and isinstance(st.value.func.value, ast.Name)
+                and st.value.func.value.id == "self" and not st.value.args and not st.value.keywords):
+            return GETTERS[FORCE[st.value.func.attr]]
+        return None
+    for st in _strip_doc(init.body):
+        if (isinstance(st, ast.Assign) and len(st.targets) == 1 and isinstance(st.targets[0], ast.Attribute)
+                and st.targets[0].attr == "_auto_update_timestamps" and isinstance(st.targets[0].value, ast.Name)
+                and st.targets[0].value.id == "self" and isinstance(st.value, ast.Name)
+                and st.value.id == "auto_update_timestamps" and not _stores_to(init, "auto_update_timestamps")):
+            steps.append(("switchFromParam",))
+            continue
+        a = force_call(st)
+        if a is not None:
+            steps.append(("force", a))
+            continue
+        if isinstance(st, ast.If) and not st.orelse and len(st.body) == 1 and force_call(st.body[0]) is not None:
+            t = st.test
+            a = force_call(st.body[0])
+            if (isinstance(t, ast.Compare) and len(t.ops) == 1 and isinstance(t.ops[0], ast.NotIn)
+                    and isinstance(t.left, ast.Constant) and t.left.value == FORCE["force_%s_at" % a]
+                    and _is_self_attr_chain(t.comparators[0], ["_h5file", "attrs"])):
+                steps.append(("forceIfMissing", a))
+                continue
+        if _mentions(st):
+            steps.append(("unknown",))
+    return steps
+
+
 def scan_creation(repo, classes, fns):
     """-> (creators: {cls: steps}, factories: [(owner cls, method, created cls, steps)])"""
     creators = {}
@@ -1012,6 +1058,17 @@ def _render_creation(repo, order, members, memnames):
     L.append("def factories : List Factory := [")
     L.append(",\n".join("  ⟨.%s, .%s, .%s, %s⟩" % (o, _mem_id(m), c, steps(st)) for o, m, c, st in factories))
     L.append("]")
+    L.append("")
+    L.append("/-- a statement of `File.__init__` that concerns the switch or the file's own time stamps:")
+    L.append("`switchFromParam` = `self._auto_update_timestamps = auto_update_timestamps`; `forceIfMissing a` =")
+    L.append("`if \"<a>_at\" not in self._h5file.attrs: self.force_<a>_at()`; `force a` = that call unconditionally;")
+    L.append("`unknown` = any other statement that names the machinery -/")
+    L.append("inductive FStep where")
+    L.append("  | switchFromParam | forceIfMissing (a : StampAttr) | force (a : StampAttr) | unknown")
+    L.append("  deriving DecidableEq, Repr")
+    L.append("")
+    L.append("def fileInit : List FStep := [%s]" % ", ".join(
+        "." + st[0] if len(st) == 1 else "(.%s .%s)" % st for st in _file_init_steps(repo)))
     L.append("")
     L.append("end Nix.Stamps.Gen")
     return "\n".join(L) + "\n"
